@@ -26,7 +26,12 @@ PROP = dict(
              "with probability 0.2, early-reference factories fail with probability 0.15, lookups allow early references with probability "
              "2/3, returned objects reuse earlier labels with probability 1/4; plus n/20 histories on the real factory (single / chain / "
              "cycle / diamond-with-cycle graphs of lazy components, 1-2 components failing their first 1-2 Init calls, 3-6 "
-             "GetComponentByName calls); a case is non-trivial when at least one creation body ran; distinct = distinct scenario lines",
+             "GetComponentByName calls) and as many again in which a creation fails because an Init asked the factory (re-entrant "
+             "GetComponentByName) for a name WITHOUT definition - directly, below 1-3 enclosing creations (wire points, cycles, chains of "
+             "lookups between otherwise unrelated components), or through a required wire point naming a missing component; the error is "
+             "handed on raw / wrapped with %w / re-created without cause chain / swallowed, the cause disappears after 1-2 attempts or "
+             "never; afterwards the failed names are retried, the unknown name itself is looked up, and the cache levels are probed at "
+             "rest through the tracer (GetSingleton(n,false/true)); a case is non-trivial when at least one creation body ran; distinct = distinct scenario lines",
         trusted_base=COMMON_TB + ["the tracer around the real registry used for the factory histories (harness, sub_registry.go): it "
                                   "records calls and results and forwards them unchanged",
                                   "factory.NewWithRegistries (add-only verif hook in /repo) passes the wrapped registry to the default factory"],
